@@ -229,6 +229,28 @@ def column_call_to_param(call):
         not _param["nullable"] or _handle_null()
         del _param["nullable"]
 
+    # Whatever else `Column` was given (`index`, `unique`, a `comment` next to a `doc`, …) is a constraint of the
+    # column; not a key of the param. (`server_default` is handled above)
+    for key in tuple(
+        filter(
+            lambda k: isinstance(k, str)
+            and k
+            not in frozenset(
+                (
+                    "typ",
+                    "doc",
+                    "default",
+                    "x_typ",
+                    "server_default",
+                    "primary_key",
+                    "foreign_key",
+                )
+            ),
+            _param,
+        )
+    ):
+        append_to_dict(_param, ["x_typ", "sql", "constraints", key], _param.pop(key))
+
     if (
         "default" in _param
         and not cdd.shared.ast_utils.get_value(call.args[0]).endswith("kwargs")
